@@ -206,7 +206,9 @@ func (st *c13State) interferer(p *Parked) {
 	w, h := st.w, st.h
 	bans := len(h.N.Model.Bans)
 	off := h.N.Model.Offset
-	switch w.C.Weighted("menu", 3, 2, 3, 2, 2, 1, 1) {
+	menu := w.C.Weighted("menu", 3, 2, 3, 2, 2, 1, 1)
+	w.Probe("c13.pair." + p.Site + "." + []string{"ban", "authorize", "report", "rotate", "stats-falseneg", "server-post", "sync"}[menu])
+	switch menu {
 	case 0: // ban: a conflicting authorization for a live device
 		live := h.live()
 		if len(live) > 1 {
